@@ -44,6 +44,9 @@ def check(run):
     R.rule('C11.ctx', 'every mutation of the shared deflate context is in the same critical-section instance as the '
                       'write that transmits its output', 2)
     R.rule('C11.wireorder', 'what went through the shared compressor is always transmitted, compressed', 4)
+    R.rule('C11.onectx', 'one deflate context per connection, shared by all sending threads (no thread-local state); '
+                         'no class-level mutable scratch state on the send path', 4)
+    onectx(R)
     locked(R)
     private(R)
     once(R)
@@ -53,14 +56,20 @@ def check(run):
 
 
 def locked(R):
-    q = S + '.write'
-    g = R.cfg(q)
-    sa = ext_calls(R, g, {'socket.sendall', 'socket.send'})
-    need(len(sa) >= 1, 'write(): sendall not found')
-    for (n, c) in sa:
+    from .common import effective_write_sites
+    sites = effective_write_sites(R)
+    need(sites, 'no write to the session socket found')
+    for (g, n, c, via) in sites:
+        q = g.ctx.func.qual
         lf = lock_frames(R, g, n)
-        R.ob('C11.locked', 'sendall under the session lock', any(t == 'self._lock' for (_, t) in lf),
-             'sendall() is outside `with self._lock`: two senders can interleave the bytes of their frames', func=q, node=c)
+        R.ob('C11.locked', 'socket write under the session lock (%s)' % q.rsplit('.', 1)[1], any(t == 'self._lock' for (_, t) in lf),
+             'the socket write `%s` (via %s) is outside `with self._lock`: two senders can interleave the bytes of their '
+             'frames' % (U(c), ' <- '.join(via)), func=q, node=c)
+        # one frame = one write inside one section: no loop writing a frame in several locked pieces
+        inloop = any(fr.kind == 'loop' for fr in n.frames)
+        R.ob('C11.locked', 'a frame is written by one call inside one critical section (%s)' % q.rsplit('.', 1)[1], not inloop,
+             'the socket write is inside a loop: a frame written in slices under separately acquired locks can be '
+             'interleaved with another thread\'s frame', func=q, node=c)
     q = S + '._close_socket'
     g = R.cfg(q)
     for (n, c) in ext_calls(R, g, {'socket.close', 'socket.shutdown'}):
@@ -68,19 +77,57 @@ def locked(R):
         R.ob('C11.locked', '%s under the session lock' % U(c.func), any(t == 'self._lock' for (_, t) in lf),
              '%s outside `with self._lock`: the socket can be closed in the middle of another thread\'s frame' % U(c.func),
              func=q, node=c)
-    # no other function writes the published socket
+    # send()/send_compressed() hand the whole frame to write() in one call (no slicing)
+    for q in (S + '.send', S + '.send_compressed'):
+        g = R.cfg(q)
+        w = calls_to(R, g, S + '.write')
+        inloop = any(any(fr.kind == 'loop' for fr in n.frames) for (n, _) in w)
+        R.ob('C11.locked', '%s passes the whole frame to one write()' % q.rsplit('.', 1)[1], bool(w) and not inloop,
+             '%s() writes the frame in several write() calls: the lock is released between the pieces' % q.rsplit('.', 1)[1],
+             func=q, node=(w[0][1] if w else None), construct='%s sliced writes' % q)
+
+
+def onectx(R):
+    # threading.local anywhere in the package: per-thread state where the peer has one context / one wire
     bad = []
     for cx in R.types.ctxs.values():
         f = cx.func
-        if f.parent is not None or (f.cls is not None and cx.recv != f.cls.qual):
+        if f.cls is not None and cx.recv != f.cls.qual:
             continue
         for n in own_nodes(f.node):
-            if isinstance(n, ast.Call) and isinstance(n.func, ast.Attribute) and n.func.attr in ('sendall', 'send') \
-                    and U(n.func.value).endswith('._sock') and f.qual != S + '.write':
+            if isinstance(n, ast.Call) and U(n.func) in ('threading.local', 'local') and \
+                    any(t.kind == 'ext' and t.name == 'threading.local' for t in R.types.call_targets(n, cx)):
                 bad.append((f, n))
-    R.ob('C11.locked', 'write() is the only writer of the published socket', not bad,
-         '%s writes to the session socket outside write()' % (bad[0][0].qual if bad else ''), func=(bad[0][0] if bad else None),
-         node=(bad[0][1] if bad else None), construct='foreign socket writes')
+    R.ob('C11.onectx', 'no thread-local protocol state', not bad,
+         '%s keeps state in threading.local(): each sending thread gets its own context while the peer has exactly one' % (
+             bad[0][0].qual if bad else ''), func=(bad[0][0] if bad else None), node=(bad[0][1] if bad else None),
+         construct='threading.local use')
+    # the compressor object lives in one field of the Deflate object
+    st = [(c, s_, t, v) for (c, s_, t, v) in stores_in_package(R, '_compressobj')]
+    ok = bool(st) and all(isinstance(v, ast.Call) and any(t_.kind == 'ext' and t_.name == 'zlib.compressobj'
+                                                          for t_ in R.types.call_targets(v, c)) and U(t.value) == 'self'
+                          for (c, s_, t, v) in st)
+    R.ob('C11.onectx', 'one compressor object per Deflate instance', ok, 'Deflate._compressobj writers: %s' % [U(v) for (_, _, _, v) in st],
+         func='compression.Deflate.reset_compressor', node=None, construct='_compressobj writers')
+    # classes on the send path: no mutable class-level attribute, no in-place packing into shared buffers
+    for cq in ('frame.Frame', 'frame.CompressedFrame', S):
+        c = R.prog.cls(cq)
+        mut = [nm for nm, vals in c.attrs.items() if nm != '__slots__' and any(
+            isinstance(v, (ast.List, ast.Dict, ast.Set)) or (isinstance(v, ast.Call) and U(v.func) in ('bytearray', 'list', 'dict', 'set'))
+            for v in vals)]
+        R.ob('C11.onectx', '%s has no mutable class-level attribute' % cq.split('.')[-1], not mut,
+             'class-level mutable attribute(s) %s on %s are shared by all threads building frames' % (mut, cq),
+             func=None, node=None, construct='%s class-level mutables %s' % (cq, mut))
+    bad = []
+    for q in (S + '.send', S + '.send_compressed', 'frame.Frame.to_bytes', 'frame.Frame.build', 'mask.mask_payload'):
+        f = R.func(q)
+        for n in own_nodes(f.node):
+            if isinstance(n, ast.Call) and isinstance(n.func, ast.Attribute) and n.func.attr in ('pack_into', 'readinto', 'recv_into') \
+                    and n.args and isinstance(n.args[0], ast.Attribute):
+                bad.append((f, n))
+    R.ob('C11.onectx', 'frames are built in locals', not bad, '%s packs into a shared buffer (%s)' % (
+        bad[0][0].qual if bad else '', U(bad[0][1]) if bad else ''), func=(bad[0][0] if bad else None),
+        node=(bad[0][1] if bad else None), construct='pack_into shared buffer')
 
 
 def private(R):
